@@ -20,7 +20,7 @@ META = dict(
     explanation='symx: real pth_assign_spectrum / compute_n_m / aggregate_oms_bitmap / bitmap_sum / spectrum_selection / '
                 'determine_slot_numbers / OMS.assign_spectrum / order_slots / restore_order executed on bitmaps whose cells are '
                 'symbolic; one request from an arbitrary spectrum state (inductive step over request histories)',
-    bounds=['quick: one OMS on the path: bitmap length 9 (7 with a bystander OMS), three-valued cells, N in {None,-2,0,1}; two OMS on the path '
+    bounds=['quick: one OMS on the path: bitmap length 9 (7 with a bystander OMS), three-valued cells, N in {None,-2,0,1, last usable slot}; two OMS on the path '
             '(forward+reverse, or both forward) plus a bystander: length 5, two-valued cells, N in {None,0,-1}; M in {None,1,2}; 1 or 2 entries; '
             '1 or 2 channels of 12.5 GHz; guard band 1 slot; first_fit. thorough: lengths 11 / 9 / 7',
             'paths: forward only / forward+reverse on distinct OMS / two OMS on the forward path; one bystander OMS'],
